@@ -457,6 +457,9 @@ func (fx *FnExec) call(instr ssa.Instruction, cc *ssa.CallCommon, pos token.Pos)
 		fx.assume(fx.wellTyped(result, &fx.cur))
 		fx.assumeResultTypes(result, resT)
 	}
+	for _, r := range splitResults(fx, result, resT) {
+		fx.assumeTypeInvOf(r, tTrue)
+	}
 	if fx.errflow {
 		fx.trackErr(result, resT, key, pos)
 	}
@@ -506,6 +509,8 @@ func splitResults(fx *FnExec, result Val, resT *types.Tuple) []Val {
 }
 
 func (fx *FnExec) applyContract(con *Contract, key string, recv *Val, args []Val, resultType types.Type, resT *types.Tuple, pos token.Pos) (Val, error) {
+	fx.inContractApply = true
+	defer func() { fx.inContractApply = false }()
 	fx.usedContracts[key] = true
 	callOrd := fx.ord("call:" + key)
 	env0 := fx.calleeEnv(con, recv, args, &fx.cur, nil, nil)
@@ -747,6 +752,13 @@ func (fx *FnExec) ret(x *ssa.Return) error {
 		results = append(results, fx.plain(fx.val(r)))
 	}
 	fx.retBlocks++
+	for _, r := range results {
+		if t, err := fx.typeInvFact(r, &fx.cur); err != nil {
+			return err
+		} else if t != tTrue {
+			fx.oblige("typeinv", "", sImp(sNot(fx.isNil(r)), t), "representation invariant holds for a returned object", x.Pos())
+		}
+	}
 	fx.obls = append(fx.obls, &Obligation{Name: displayKey(fx.key) + fmt.Sprintf("/cover#ret%d", fx.retOrdinal(x)), Class: "cover", Fn: fx.key, Goal: sNot(fx.curReach), Upto: fx.c.mark(), Pos: fx.pos(x.Pos()), Text: "return is reachable under the contract's assumptions", fx: fx, Expect: "sat"})
 	if fx.errflow {
 		fx.errflowAtReturn(results, x)
@@ -1037,6 +1049,12 @@ func (fx *FnExec) dispatchPure(cc *ssa.CallCommon, recv *Val, args []Val, result
 				return Val{}, false, fmt.Errorf("%s:%d: %v", en.File, en.Line, err)
 			}
 			fx.assume(sImp(guard, t))
+		}
+	}
+	// tie the result to the spec-level view of the same call
+	if len(args) == 0 && len(result.L) == 1 {
+		if t, _, known, err := fx.constMethodTerm(*recv, cc.Method.Name()); err == nil {
+			fx.assume(sImp(known, sEq(result.L[0], t)))
 		}
 	}
 	fx.usedContracts["dispatch:"+funcKeyOf(cc.Method)] = true
